@@ -150,6 +150,13 @@ macro_rules! const_chunks_mut {
                     n += 1;
                     k += 1;
                 }
+                // the flattened view is a mutable one: write through it as well (the values already there, so the
+                // observable is that of the run-time case; a view derived from a shared reborrow is rejected here)
+                let mut k = 0;
+                while k < f.len() {
+                    f[k] = $mk(newc(k));
+                    k += 1;
+                }
             }
             out[n] = M as i128;
             n += 1;
